@@ -158,6 +158,22 @@ func checkC09(sc *Scenario, t *Truth) []Violation {
 						alive = true
 					}
 				}
+				if st.Status == "Pending" {
+					// waiting on a dependency that can still change is something left to wait for
+					waiting := false
+					if p := sc.specOfReplica(name); p != nil {
+						for dep := range p.DependsOn {
+							for _, rn := range ReplicaNames(dep, 1) {
+								if ds, ok := t.Final.States[rn]; ok && !isTerminalStatus(ds.Status) {
+									waiting = true
+								}
+							}
+						}
+					}
+					if waiting {
+						continue
+					}
+				}
 				if st.Status == "Restarting" {
 					// a back-off wait that the policy still owes is something left to wait for
 					insts := t.ByRep[name]
